@@ -163,3 +163,10 @@ m("gz_lookup_ignores_auto_gzip", ["C19"], "src/dir.rs",
   "let should_gzip = self.auto_gzip && super::should_gzip(req_hdrs);", "let should_gzip = super::should_gzip(req_hdrs);")
 m("absolute_check_removed", ["C19"], "src/dir.rs",
   "    if path.as_bytes().first() == Some(&b'/') {\n        return Err(\"path is absolute\");\n    }\n", "")
+
+m("exactlen_counts_first_segment_only", ["C01", "C07"], "src/body.rs",
+  "                let d_len = crate::as_u64(d.remaining());", "                let d_len = crate::as_u64(d.chunk().len());",
+  note="only visible with a non-contiguous Entity::Data type (harness SegBuf)")
+m("multipart_counts_first_segment_only", ["C12"], "src/serving.rs",
+  "                        this.remaining -= crate::as_u64(d.remaining());", "                        this.remaining -= crate::as_u64(d.chunk().len());",
+  note="only visible with a non-contiguous Entity::Data type")
